@@ -62,6 +62,7 @@ checks = []
 for pid in sorted(props):
     text, ref = TEXT[pid]
     n = len(ob.get(pid, {}).get('theorems', []))
+    nt = len(ob.get(pid, {}).get('tie', []))
     checks.append({
         'property_id': pid,
         'quick_cmd': f'/venv/bin/python harness/check.py {pid} --tier quick',
@@ -69,14 +70,14 @@ for pid in sorted(props):
         'evidence_file': f'evidence/{pid}.json',
         'replay_cmd_template': f'/venv/bin/python harness/check.py {pid} --replay {{path}}',
         'engine': 'lean4-proof+correspondence',
-        'level_claimed': {'category': 'proof', 'text': text + f' ({n} kernel-checked theorems listed in lean/obligations.json)',
+        'level_claimed': {'category': 'proof', 'text': text + f' ({n} kernel-checked theorems' + (f' + {nt} translator-tie theorems' if nt else '') + ' listed in lean/obligations.json)',
                           'design_ref': 'DESIGN.md section ' + ref},
         'level_note': 'Trusted: Lean 4.33 kernel (axioms propext, Classical.choice, Quot.sound only); the hand-written model, tied to '
-                      '/repo only by the differential correspondence and direct oracle run by this check; harness generators, symbolic '
+                      '/repo by the differential correspondence and direct oracle run by this check' + ('; its offset / count / guard arithmetic is also tied to the source text by definitions regenerated from it on every run (harness/sgzv/translate.py, trusted) and the tie theorems of lean/Sgz/Tie' if nt else '') + '; harness generators, symbolic '
                       'codec and spec codec; assumptions A1-A5 of DESIGN.md section 7 (zfpy cellwise coding, segyio/pyvds/pyzgy, CPython '
                       'queue/hashlib, binary64, OS prefix semantics).',
         'technique': 'machine-checked proof in Lean 4 (theorems over a hand-written executable model, kernel-checked, axioms audited '
-                     'each run) + differential correspondence of the compiled model driver with the real code + direct oracle '
+                     'each run)' + (' + translator tie (Lean definitions regenerated from the Python source on every run, proved equal to the model\'s)' if nt else '') + ' + differential correspondence of the compiled model driver with the real code + direct oracle '
                      'on the real code as failing-input search',
     })
 m = {
@@ -90,7 +91,7 @@ m = {
               'kind_free_text': 'Lean 4 model (lean/Sgz/Model) and theorems (lean/Sgz/Props); Python harness drives the compiled model '
                                 'driver and the real code on the same requests'}],
  'checks': checks,
- 'notes': 'Every check: (1) lake build + #print axioms audit of the theorems listed for the property, (2) correspondence of the model '
+ 'notes': 'Every check: (1) lake build + #print axioms audit of the theorems listed for the property, incl. the translator-tie theorems against definitions regenerated from the current source, (2) correspondence of the model '
           'components with /repo\'s working tree, (3) direct oracle on the real code; verdict logic in DESIGN.md section 6. '
           'known_findings.json lists recorded defects; fix: commits are listed there as fixed.',
  'not_applicable': [],
